@@ -671,6 +671,22 @@ def r_kp_roundtrip(cx):
               "kp transform computes the roundtrip residual as %s - %s: it must be the roundtrip result minus the saved "
               "input (%s)" % (names[0], names[1] if len(names) > 1 else "?", ", ".join(sorted(copies)) or "no copy found"),
               cx.where(t["span"]))
+        # ... for every tuple of the batch: the loop that forms the residuals does not end at the number of successful
+        # transformations (an unsuccessful tuple may stand anywhere in the batch, the lines behind position n would be
+        # printed as coordinates, not as residuals)
+        import pertuple
+        lp = f.innermost_loop(bb)
+        if lp is not None:
+            x = pertuple.iterator_entry_value(f, lp)
+            by_count = []
+            if x is not None:
+                mir.walk(x, lambda y: (by_count.append(1) if y[0] == "call" and isinstance(y[1], str) and
+                                       y[1].rsplit("::", 1)[-1] == "apply" else None) or True)
+            cx.ob("R-KP-ROUNDTRIP", "transform/residual%d/all-tuples" % (n - 1), not by_count,
+                  "the residuals are formed for every tuple of the batch" if not by_count else
+                  "kp transform forms the roundtrip residuals for the first n tuples only, n being the number of successful "
+                  "transformations: with an unsuccessful tuple anywhere but at the end, the last lines are printed as "
+                  "roundtripped coordinates instead of residuals", cx.where(f.term(lp.header)["span"]))
     if n == 0:
         cx.ob("R-KP-ROUNDTRIP", "transform/residual0", False, "anchor-missing: no Coor4D subtraction in kp transform",
               cx.where(f.d["span"]))
